@@ -76,9 +76,17 @@ def zi_exists(d):
     return back == d, secs(off)
 
 
+DAY_US = 86400 * 10 ** 6
+MAX_US = 3652059 * DAY_US          # microseconds from 0001-01-01T00:00 to the end of year 9999
+CYCLE_US = 146097 * DAY_US         # 400 Gregorian years: a whole number of weeks, so every zone rule falls on the same dates
+EPOCH1_UTC = datetime.datetime(1, 1, 1, tzinfo=UTC)
+UNIX_US = (datetime.date(1970, 1, 1).toordinal() - 1) * DAY_US
+
+
 def ref_offset_at(text):
-    """For text that is a syntactically strict ISO datetime with valid fields: (utc offset in seconds of ZONE at that
-    instant per zoneinfo, per libc, expected local parts per zoneinfo). Else None."""
+    """For text that is a syntactically strict ISO datetime with valid fields: the UTC offset (seconds) of ZONE at that
+    instant per zoneinfo and per libc, and the expected local parts per zoneinfo (None = the UTC instant or the local
+    time falls outside years 1..9999). Integer arithmetic, so instants at the ends of the range are handled. Else None."""
     m = STRICT_DT.fullmatch(text)
     if not m:
         return None
@@ -94,19 +102,26 @@ def ref_offset_at(text):
             return None
         off = (oh * 3600 + om * 60) * (-1 if zone[0] == '-' else 1)
     try:
-        aware = datetime.datetime(y, mo, d, h, mi, s, us, tzinfo=datetime.timezone(datetime.timedelta(seconds=off)))
-        utc = aware.astimezone(UTC)
-        local = utc.astimezone(Z)
-    except (ValueError, OverflowError):
+        datetime.datetime(y, mo, d, h, mi, s)
+    except ValueError:
         return None
-    zi_off = secs(local.utcoffset())
+    local_us = ((datetime.date(y, mo, d).toordinal() - 1) * 86400 + h * 3600 + mi * 60 + s) * 10 ** 6 + us
+    utc_us = local_us - off * 10 ** 6
+    probe = utc_us
+    while probe < 2 * DAY_US:
+        probe += CYCLE_US
+    while probe >= MAX_US - 2 * DAY_US:
+        probe -= CYCLE_US
+    zi_off = secs((EPOCH1_UTC + datetime.timedelta(microseconds=probe)).astimezone(Z).utcoffset())
     try:
-        libc_off = time.localtime((utc - datetime.datetime(1970, 1, 1, tzinfo=UTC)) // datetime.timedelta(seconds=1)).tm_gmtoff
+        libc_off = time.localtime((utc_us - UNIX_US) // 10 ** 6).tm_gmtoff
     except (OverflowError, ValueError, OSError):
         libc_off = None
-    naive = local.replace(tzinfo=None)
-    naive = naive.replace(microsecond=naive.microsecond // 1000 * 1000)
-    return {'zi': zi_off, 'libc': libc_off, 'local': parts(naive)}
+    out_us = utc_us + zi_off * 10 ** 6
+    local = None
+    if 0 <= utc_us < MAX_US and 0 <= out_us < MAX_US:
+        local = parts(datetime.datetime(1, 1, 1) + datetime.timedelta(microseconds=out_us // 1000 * 1000))
+    return {'zi': zi_off, 'libc': libc_off, 'local': local}
 
 
 EXPR_LR = {'binary': {'op': '-', 'left': {'group': {'binary': {'op': '+', 'left': {'variable': 'd'}, 'right': {'variable': 'n'}}}},
